@@ -24,7 +24,7 @@ CHECKS = {
    "capacity >= 2x the block's contiguous unit; bit-stream blocks get {0,1}; integer blocks get non-overflowing values", "DESIGN.md §5 C08"),
  "C09": ("E2 drip-feed driver", "exploration",
    "property testing with a per-call verdict oracle (handle counts, wait probing, spin detection, retirement)",
-   "On every work() call of generated drip schedules (all catalogue blocks plus sources/sinks): no stream refusal, exactly two handles per open stream afterwards, no idle wait on an already satisfied stream, providing exactly what was asked leads to progress, no 6x idle Again, retirement after inputs end, no output after a retirable verdict, and finite sources (vector, file incl. files ending inside a sample, SigMF) with drained output report EOF.",
+   "On every work() call of generated drip schedules (all catalogue blocks plus sources/sinks): no stream refusal, exactly two handles per open stream afterwards, no idle wait on an already satisfied stream, providing exactly what was asked leads to progress, no 6x idle Again, retirement after inputs end, no output after a retirable verdict (a wait on an ended, insufficient input, or a wait verdict after which eof() answers true), and finite sources (vector, file incl. files ending inside a sample, SigMF) with drained output report EOF.",
    "activity = change of buffered counts on harness-owned ends; requests above capacity not probed; WaitForFunc not executed", "DESIGN.md §5 C09"),
  "C12": ("E2 drip-feed driver", "exploration",
    "property testing with index-valued tags (expected tag sequence per block rule vs observed, under drip schedules)",
@@ -78,7 +78,7 @@ CHECKS = {
    "balanced diamonds only; blocks chunking-invariant (C08)", "DESIGN.md §5 C06"),
  "C07": ("E4 schedule explorer + E5 graph generator", "exploration",
    "fault-injecting, schedule-exploring property testing (cancellation at generated scheduling points; failing wrapper block at generated position/call; both runners)",
-   "Both runners execute generated graphs on the shuttle runtime while a canceller task cancels after a generated number of scheduling points, or a wrapper block fails on its k-th call, several failing blocks (up to every block), or cancel and fail at once (the failing call passes scheduling points while the canceller runs); cancel => run() returns Ok with <= 1 further work() call per block and all MT blocks dropped; fail => run() returns an Err carrying the injected marker; panics, Ok, other errors and non-return are violations. MTGraph plans may contain a block answering Pending for 1-29 calls; no single sleep a runner thread asks for (reported by the shim, no wall clock) may exceed 10 s, since the token is not looked at during a sleep.",
+   "Both runners execute generated graphs on the shuttle runtime while a canceller task cancels after a generated number of scheduling points, or a wrapper block fails on its k-th call, several failing blocks (up to every block), or cancel and fail at once (the failing call passes scheduling points while the canceller runs); cancel => run() returns Ok with <= 1 further work() call per block and all MT blocks dropped; fail => run() returns an Err carrying the injected marker; panics, Ok, other errors and non-return are violations. In 15% of the cancel plans cancel() has returned before run() is entered. MTGraph plans may contain a block answering Pending for 1-29 calls; no single sleep a runner thread asks for (reported by the shim, no wall clock) may exceed 10 s, since the token is not looked at during a sleep.",
    "bounded liveness; if the failing block never reaches call k nothing is injected", "DESIGN.md §5 C07"),
 
  "C11": ("E2 drip-feed driver + E3 reference models", "exploration",
